@@ -7,6 +7,8 @@
                  occupies no space (no physical record is written for it).
 * pr_max_len   : maximum physical record length (header 4 + payload + trailer), <= 65535.
 * trailers     : (has_record_number: bool, file_number: int|None, has_checksum: bool)
+* pad          : None, or (modulo, fill): every physical record is followed by filler bytes (fill: an int byte value or a
+                 bytes pattern) up to the next multiple of `modulo` of the file position; TIF `next` words count them.
 * tif          : 0/False/'off' no TIF markers; 1/True/'le' markers as TotalDepth writes them (three little-endian
                  32-bit words type, previous, next); 2/'be' big-endian words ("reversed" in TotalDepth's vocabulary).
 
@@ -36,7 +38,7 @@ def split_payload(record: bytes, max_payload: int):
     return [record[i:i + max_payload] for i in range(0, len(record), max_payload)]
 
 
-def layout(records, pr_max_len, trailers=(False, None, False), tif=0):
+def layout(records, pr_max_len, trailers=(False, None, False), tif=0, pad=None):
     has_rec, file_num, has_chk = trailers
     mode = TIF_MODES[tif]
     trailer_len = 2 * bool(has_rec) + 2 * (file_num is not None) + 2 * bool(has_chk)
@@ -63,8 +65,10 @@ def layout(records, pr_max_len, trailers=(False, None, False), tif=0):
             length = 4 + len(part) + trailer_len
             attr = base_attr | (1 if k < len(parts) - 1 else 0) | (2 if k > 0 else 0)
             start = len(out)
+            end = start + (12 if mode else 0) + length
+            pad_len = (-end) % pad[0] if pad and pad[0] else 0
             if mode:
-                marker(0, start + 12 + length)
+                marker(0, end + pad_len)
             body = struct.pack('>HH', length, attr) + part
             if has_rec:
                 body += struct.pack('>H', pr_count % 65536)
@@ -75,6 +79,9 @@ def layout(records, pr_max_len, trailers=(False, None, False), tif=0):
             prs.append({'record': ri, 'chunk': k, 'start': start, 'data_start': start + (12 if mode else 0) + 4,
                         'payload_len': len(part), 'length': length})
             out.extend(body)
+            if pad_len:     # physical record padding (LIS-79 2.3.1.1): filler up to a multiple of pad[0] bytes
+                fill = pad[1]
+                out.extend(bytes([fill]) * pad_len if isinstance(fill, int) else bytes(fill[i % len(fill)] for i in range(pad_len)))
             pr_count += 1
     if mode:
         marker(1, len(out) + 12)
@@ -82,8 +89,8 @@ def layout(records, pr_max_len, trailers=(False, None, False), tif=0):
     return bytes(out), tells, prs
 
 
-def write_lis(records, pr_max_len, trailers=(False, None, False), tif=0) -> bytes:
-    return layout(records, pr_max_len, trailers, tif)[0]
+def write_lis(records, pr_max_len, trailers=(False, None, False), tif=0, pad=None) -> bytes:
+    return layout(records, pr_max_len, trailers, tif, pad)[0]
 
 
 def strip_tif_reference(records, pr_max_len, trailers=(False, None, False)) -> bytes:
